@@ -1,6 +1,7 @@
 from __future__ import annotations
 
 import ast
+import collections
 import copy
 import itertools
 import re
@@ -154,19 +155,32 @@ def safe_callable_names(root: ast.Module) -> Collection[str]:
     Returns:
         Collection[str]: Names of all functions that have no side effect when called.
     """
+    # Names that are (also) bound to something else than a single function or class definition
+    # may refer to anything when they are called.
     defined_names = {node.id for node in core.walk(root, ast.Name(ctx=ast.Store))}
+    defined_names.update(node.arg for node in core.walk(root, ast.arg))
+    defined_names.update(
+        (alias.asname or alias.name).split(".")[0] for alias in core.walk(root, ast.alias)
+    )
     function_defs = list(core.walk(root, (ast.FunctionDef, ast.AsyncFunctionDef)))
+    class_defs = list(core.walk(root, ast.ClassDef))
+    definition_counts = collections.Counter(node.name for node in function_defs + class_defs)
+
     safe_callables = set(constants.SAFE_CALLABLES)
     safe_callable_nodes = set()
     changes = True
     while changes:
         changes = False
         for node in function_defs:
-            if node.name in defined_names:
+            if node in safe_callable_nodes:
                 continue
             nonreturn_children = []
             for child in node.body:
                 if core.is_blocking(child):
+                    # Whatever ends the function must be a plain return, whose value is checked
+                    # below. Raising, or returning from within a compound statement, is not safe.
+                    if not isinstance(child, ast.Return):
+                        nonreturn_children.append(child)
                     break
 
                 nonreturn_children.append(child)
@@ -177,12 +191,15 @@ def safe_callable_names(root: ast.Module) -> Collection[str]:
                 for child in itertools.chain(nonreturn_children, return_children)
             ):
                 safe_callable_nodes.add(node)
-                safe_callables.add(node.name)
+                if node.name not in defined_names and definition_counts[node.name] == 1:
+                    safe_callables.add(node.name)
                 changes = True
 
-        function_defs = [node for node in function_defs if node.name not in safe_callables]
-
-    for node in core.walk(root, ast.ClassDef):
+    for node in class_defs:
+        if node.name in defined_names or definition_counts[node.name] > 1:
+            continue
+        if node.bases or node.keywords:
+            continue  # Constructors may be inherited
         constructors = {
             child
             for child in node.body
